@@ -1003,9 +1003,18 @@ func checkDeletePayload(p *Prog, r *Roles, res *Result, rule string) {
 			continue
 		}
 		n++
+		commit := vb.b.Commits[0].(ssa.Instruction)
+		expected := vb.cond.Old
+		// the batch may be built and committed by a helper (commit(key, new, expected ..)): the function that read the
+		// key and answers the entry point is then the helper's caller, and the call is where the commit happens
+		if vb.ctx != nil {
+			if _, hasStruct := structResultIndex(f); !hasStruct {
+				f, commit, expected = vb.ctx.Parent(), vb.ctx.(ssa.Instruction), p.ctxValue(vb.cond.Old, vb.ctx)
+			}
+		}
 		// the read(s) the expected index value comes from
 		readCalls := map[*ssa.Call]bool{}
-		derivesFromCallArgs(p, vb.cond.Old, func(v ssa.Value) bool {
+		derivesFromCallArgs(p, expected, func(v ssa.Value) bool {
 			if ex, ok := v.(*ssa.Extract); ok {
 				if c, ok := ex.Tuple.(*ssa.Call); ok && c.Parent() == f {
 					readCalls[c] = true
@@ -1024,7 +1033,6 @@ func checkDeletePayload(p *Prog, r *Roles, res *Result, rule string) {
 			})
 		}
 		construct := funcName(f) + ": previous key-value returned after the commit is the one that was read"
-		commit := vb.b.Commits[0].(ssa.Instruction)
 		cp := posOf(commit)
 		var rets []*ssa.Return
 		searchFrom(cp.b, cp.i+1, searchOpts{bad: func(i ssa.Instruction) bool {
@@ -1034,12 +1042,7 @@ func checkDeletePayload(p *Prog, r *Roles, res *Result, rule string) {
 			return false
 		}})
 		bad := ""
-		structIdx := -1
-		for i := 0; i < f.Signature.Results().Len(); i++ {
-			if _, ok := f.Signature.Results().At(i).Type().Underlying().(*types.Struct); ok {
-				structIdx = i
-			}
-		}
+		structIdx, _ := structResultIndex(f)
 		if structIdx < 0 || len(rets) == 0 || len(readCalls) == 0 {
 			res.und(rule, construct, p.pos(f.Pos()), "shape not recognised (no struct result, no return after the commit, or no read feeding the expected value)")
 			continue
@@ -1163,4 +1166,14 @@ func checkDeletePayload(p *Prog, r *Roles, res *Result, rule string) {
 	if n == 0 {
 		res.und(rule, "delete batch", "-", "no batch writing the deletion marker found in pkg/backend")
 	}
+}
+
+func structResultIndex(f *ssa.Function) (int, bool) {
+	idx := -1
+	for i := 0; i < f.Signature.Results().Len(); i++ {
+		if _, ok := f.Signature.Results().At(i).Type().Underlying().(*types.Struct); ok {
+			idx = i
+		}
+	}
+	return idx, idx >= 0
 }
